@@ -2,7 +2,7 @@
 from .. import core, extract
 from ..core import Suite
 
-LEAN_TARGETS = ['Uds.Props.C02', 'Uds.Props.C02Call', 'Uds.Tie.Groups']
+LEAN_TARGETS = ['Uds.Props.C02', 'Uds.Props.C02Call', 'Uds.Props.C02Hist', 'Uds.Tie.Groups']
 ASSUMPTIONS = [
     'ISO 14229-1:2020 positive-response layouts as written in harness/declib.py (reference encoder in Python) and Uds/Spec/Response.lean (reference encoder in Lean)',
     'DID / IO codecs: decode is user code, modelled as the identity on the raw bytes; dumps compare the raw bytes',
